@@ -29,7 +29,7 @@ class ModuleInfo:
             raise AnalysisError(f"syntax error in {relpath}: {err}")
         # behaviour-preserving respellings are brought to the canonical form the rules are written against
         from .canon import canonicalise
-        canonicalise(self.tree, relpath)
+        canonicalise(self.tree, relpath, src)
         self.digest = hashlib.sha256(src.encode()).hexdigest()[:16]
         self.imports: Dict[str, str] = {}
         self.defs: Dict[str, ast.AST] = {}
